@@ -214,7 +214,23 @@ func (m *Machine) val(st *State, fr *Frame, v ssa.Value) Value {
 	panic(fmt.Sprintf("value %s (%T) not defined in %s", v.Name(), v, fr.fn.Name()))
 }
 
+// canon: go/ssa creates one bound-method wrapper per use site; they are the same function to us.
+func (m *Machine) canon(f *ssa.Function) *ssa.Function {
+	if f.Synthetic == "" {
+		return f
+	}
+	if m.synth == nil {
+		m.synth = map[string]*ssa.Function{}
+	}
+	if g, ok := m.synth[f.String()]; ok {
+		return g
+	}
+	m.synth[f.String()] = f
+	return f
+}
+
 func (m *Machine) fnRef(f *ssa.Function) *Term {
+	f = m.canon(f)
 	if c, ok := m.fnCodes[f]; ok {
 		return m.ctx.IntBig(new(big.Int).Add(fnBase, big.NewInt(c)))
 	}
@@ -225,6 +241,7 @@ func (m *Machine) fnRef(f *ssa.Function) *Term {
 }
 
 func (m *Machine) fnCode(f *ssa.Function) *Term {
+	f = m.canon(f)
 	m.fnRef(f)
 	return m.ctx.Int(m.fnCodes[f])
 }
@@ -346,6 +363,7 @@ func (m *Machine) loopInfoOf(fn *ssa.Function) *loopInfo {
 }
 
 func (m *Machine) exec(st *State, fr *Frame, ins ssa.Instruction) {
+	m.lastFn, m.lastIns = fr.fn, ins
 	next := func() { fr.ip++ }
 	switch x := ins.(type) {
 	case *ssa.DebugRef:
@@ -868,6 +886,9 @@ func (m *Machine) ptrEq(x, y *Ptr) *Term {
 	c := m.ctx
 	if x.Idx == nil && y.Idx == nil && x.Path == y.Path {
 		return c.Eq(x.Ref, y.Ref)
+	}
+	if (x.Opaque || y.Opaque) && (x.Path != y.Path || (x.Idx == nil) != (y.Idx == nil)) {
+		return c.App("opaquePtrEq", BoolSort, x.Ref, y.Ref)
 	}
 	if x.Path != y.Path || (x.Idx == nil) != (y.Idx == nil) {
 		// different interior locations: equal only if both nil (interior pointers are never nil)
@@ -1449,6 +1470,9 @@ func (m *Machine) closureCode(st *State, f *Term) (*ssa.Function, bool) {
 	if code.IsNum() {
 		fn, ok := m.fnOf[code.num.Int64()]
 		return fn, ok
+	}
+	if fn, ok := m.knownCode[f.id]; ok {
+		return fn, true // from a requires clause closureIs(f, "...") of the function under verification
 	}
 	return nil, false
 }
